@@ -832,7 +832,6 @@ Proof.
   pose proof (walk_lookup f FUEL NLINK [] (Nms pn) false) as Ko. fold (awalk f pn false) in Ko.
   pose proof (walk_lexical f fp FUEL NLINK [] HLfp) as Wn. fold (awalk f fp false) in Wn.
   pose proof (walk_lookup f FUEL NLINK [] (Nms fp) false) as Kn. fold (awalk f fp false) in Kn.
-  destruct tgt as [|t0 tgt']; [discriminate|].
   assert (Hnew : forall n, node_ok wd f fp n ->
             match awalk f fp false with WNoEnt q => Some (set_ent q n f) | _ => None end = Some f' ->
             Keeps wd f f' /\ only_at f f' fp /\ Step f f' fp).
